@@ -28,10 +28,11 @@ Lemma container_range_nonempty : reg_cont_sys_last < reg_cont_max.
 Proof. vm_compute. reflexivity. Qed.
 Lemma singleton_range_nonempty : 0 < reg_first_singleton /\ reg_first_singleton < reg_max_singleton.
 Proof. vm_compute. split; reflexivity. Qed.
-(* the three load() functions skip the stored rows while the version row is absent: the root of F20 *)
-Lemma load_requires_version_row :
-  reg_qname_needs_version = true /\ reg_cont_needs_version = true /\ reg_single_needs_version = true.
-Proof. repeat split; reflexivity. Qed.
+(* the three load() functions treat an absent version row alike (all skip the stored rows - the
+   root of F20 - or, after the proposed repair, all read them) *)
+Lemma registries_treat_absent_version_alike :
+  reg_qname_needs_version = reg_cont_needs_version /\ reg_cont_needs_version = reg_single_needs_version.
+Proof. split; reflexivity. Qed.
 
 (* ---- no collision, system range untouched, never at or above the limit: an invariant of every history ---- *)
 Theorem registries_stay_well_formed :
@@ -120,28 +121,44 @@ Proof. exact (fun l => clean_history_covered l fresh fresh_clean). Qed.
 
 (* The interruption between the rows and the version row of the first store.
    Full statement (what the property asks for):
-     forall l, sys_ok (sys_run fresh l)           -- for every history, including FailVer faults
-   It is false for the code as it is: *)
+     forall l, sys_covered fresh l    -- hence sys_ok (sys_run fresh l) for every history, FailVer included
+   It is false for the code as it is (load() skips the rows while the version row is absent;
+   the translator reports that shape as reg_*_needs_version = true): *)
 Theorem no_collision_refuted :
-  exists l, ~ sys_ok (sys_run fresh l).
+  reg_qname_needs_version = true -> exists l, ~ sys_ok (sys_run fresh l).
 Proof.
-  exists [AStart [[1]; [3]] [] [] (FailVer 0); AStart [[2]; [3]] [] [] NoFault].
-  intros ((_ & _ & Hinj) & _). specialize (Hinj [1] [2] 256). vm_compute in Hinj.
-  assert (H : [1] = [2]) by (apply Hinj; reflexivity). discriminate.
+  intros Hshape.
+  first [ vm_compute in Hshape; discriminate Hshape
+        | exists [AStart [[1]; [3]] [] [] (FailVer 0); AStart [[2]; [3]] [] [] NoFault];
+          intros ((_ & _ & Hinj) & _); specialize (Hinj [1] [2] 256); vm_compute in Hinj;
+          assert (H : [1] = [2]) by (apply Hinj; reflexivity); discriminate H ].
 Qed.
 
 (* ... and the application sees it: two names of the running schema with one ID, and a row
    written under the first decoded with the name of the second *)
 Theorem no_collision_refuted_observably :
+  reg_qname_needs_version = true ->
   exists l qn s' mq mc ms n1 n2 id,
     sys_step (sys_run fresh l) (AStart qn [] [] NoFault) = (s', SOk mq mc ms) /\
     In n1 qn /\ In n2 qn /\ n1 <> n2 /\
     sm_get n1 (m_names mq) = Some id /\ sm_get n2 (m_names mq) = Some id /\
     decode mq qn id = Some n2.
 Proof.
-  exists [AStart [[1]; [3]] [] [] (FailVer 0); AStart [[2]; [3]] [] [] NoFault], [[1]; [2]; [3]].
-  eexists _, _, _, _, [1], [2], 256. vm_compute.
-  repeat split; try reflexivity; try (left; reflexivity); try (right; left; reflexivity). discriminate.
+  intros Hshape.
+  first [ vm_compute in Hshape; discriminate Hshape
+        | exists [AStart [[1]; [3]] [] [] (FailVer 0); AStart [[2]; [3]] [] [] NoFault], [[1]; [2]; [3]];
+          eexists _, _, _, _, [1], [2], 256; vm_compute;
+          repeat split; try reflexivity; try (left; reflexivity); try (right; left; reflexivity); discriminate ].
+Qed.
+
+(* ... and true as soon as load() reads the rows whether or not the version row exists (the
+   repair proposed in findings/C10/F20.md; vacuous for the code as pinned) *)
+Theorem all_histories_covered_once_rows_are_always_read :
+  reg_qname_needs_version = false -> reg_cont_needs_version = false -> reg_single_needs_version = false ->
+  forall l, sys_covered fresh l.
+Proof.
+  exact (fun Nq Nc Ns l => always_read_histories_covered l fresh Nq Nc Ns
+           (conj (N.le_0_l 1) (conj (N.le_0_l 1) (N.le_0_l 1)))).
 Qed.
 
 (* partial: the interrupted first start (any failure point, any registry) is harmless when the
@@ -193,11 +210,11 @@ Proof. vm_compute. repeat split. Qed.
 (* interrupted first store (version row of qnames fails), retried with a superset schema: covered,
    and the later re-add of everything is collision-free *)
 Example interrupted_partial_nonvacuous :
-  let l := [AStart [nA; nC] [] [] (FailVer 0); AStart [nA; nB; nC] [] [] NoFault] in
+  let l := [AStart [nA; nC] [] [] (FailVer 0); AStart [nA; nC; nD] [] [] NoFault] in
   sys_covered fresh l /\
   p_rows (s_q (sys_run fresh [AStart [nA; nC] [] [] (FailVer 0)])) = [(nA, 256); (nC, 257)] /\
   p_ver (s_q (sys_run fresh [AStart [nA; nC] [] [] (FailVer 0)])) = 0 /\
-  p_rows (s_q (sys_run fresh l)) = [(nA, 256); (nB, 257); (nC, 258)] /\ p_ver (s_q (sys_run fresh l)) = 1.
+  p_rows (s_q (sys_run fresh l)) = [(nA, 256); (nC, 257); (nD, 258)] /\ p_ver (s_q (sys_run fresh l)) = 1.
 Proof.
   split; [apply interrupted_first_store_partial; [repeat split | | |]; intros x Hx; cbn in *; tauto|].
   vm_compute. repeat split.
@@ -230,4 +247,5 @@ Print Assumptions no_limit_error_while_room.
 Print Assumptions uninterrupted_histories_covered.
 Print Assumptions no_collision_refuted.
 Print Assumptions no_collision_refuted_observably.
+Print Assumptions all_histories_covered_once_rows_are_always_read.
 Print Assumptions interrupted_first_store_partial.
